@@ -43,20 +43,26 @@ Definition build_status (fixed : list f64) : outcome unit :=
   else ring_status (map (slot_count F) (weigh F fixed)).
 
 (** every command ends in weighTargets (setWeight: iff something matched); a crash
-    there ends the table load *)
-Fixpoint run_cmds (cmds : list cmd) (fixed : list f64) : outcome (list f64) :=
+    there ends the table load.  [strict] = evaluate the crash status of every
+    intermediate weighTargets run (n runs over up to n targets: quadratic in float
+    operations); it is switched on whenever the implementation crashed or a weight of the
+    sequence is outside [1e-300, 1e300].  Otherwise only the final state is computed and
+    compared: what is then not looked for is "the model predicts a crash in an
+    intermediate state that the implementation survived", and every such intermediate
+    state is the final state of other generated cases (sequences are prefix-closed). *)
+Fixpoint run_cmds (strict : bool) (cmds : list cmd) (fixed : list f64) : outcome (list f64) :=
   match cmds with
   | [] => Ok fixed
   | CAdd w :: rest =>
       let fixed' := fixed ++ [clamp_fixed F (f64_of_bits w)] in
-      do _ <- build_status fixed'; run_cmds rest fixed'
+      do _ <- (if strict then build_status fixed' else Ok tt); run_cmds strict rest fixed'
   | CSetW m w :: rest =>
       let '(fixed', n) := set_weight F m (f64_of_bits w) fixed in
-      if Nat.eqb n 0 then run_cmds rest fixed
-      else do _ <- build_status fixed'; run_cmds rest fixed'
+      if Nat.eqb n 0 then run_cmds strict rest fixed
+      else do _ <- (if strict then build_status fixed' else Ok tt); run_cmds strict rest fixed'
   | CDel keep :: rest =>
       let fixed' := mask keep fixed in
-      do _ <- build_status fixed'; run_cmds rest fixed'
+      do _ <- (if strict then build_status fixed' else Ok tt); run_cmds strict rest fixed'
   end.
 
 Definition cmd_weights (c : cmd) : list Z :=
@@ -108,21 +114,24 @@ Definition S_slots : Q := inject_Z 10000.
 (** the exact-rational instance agrees with the implementation's float64 weights
     within 1e-9 (tested bridge between the two instances of the one algorithm),
     and its slot counts agree except at a rounding boundary where they may be one apart *)
+Definition p30 : positive := Eval vm_compute in (10^30)%positive.
+Definition p300 : positive := Eval vm_compute in (10^300)%positive.
 Definition sane_bits (b : Z) : bool :=
   let x := f64_of_bits b in
   f64_finite x &&
-  (let q := f64_to_Q x in Qle_bool q 0 || (Qle_bool (1 # 10^30) q && Qle_bool q (inject_Z (10^30)))).
+  (let q := f64_to_Q x in Qle_bool q 0 || (Qle_bool (1 # p30) q && Qle_bool q (inject_Z (Zpos p30)))).
 
-Definition q_bridge (fixed weights : list Z) (counts : list N) : bool :=
-  if negb (forallb sane_bits fixed) then true else
-  let wq := weighQ (map (fun b => f64_to_Q (f64_of_bits b)) fixed) in
+Definition q_max_targets : nat := 12.   (* unreduced kilobit rationals: cost grows cubically *)
+Definition q_weights (fixed : list Z) : option (list Q) :=
+  if negb (forallb sane_bits fixed) || Nat.ltb q_max_targets (length fixed) then None
+  else Some (weighQ (map (fun b => f64_to_Q (f64_of_bits b)) fixed)).
+
+Definition q_bridge (wq : list Q) (weights : list Z) : bool :=
   let wi := map (fun b => f64_to_Q (f64_of_bits b)) weights in
   Nat.eqb (length wq) (length wi)
   && forallb (fun p => Qabs_le (fst p - snd p) eps9) (combine wq wi).
 
-Definition q_counts (fixed : list Z) (counts : list Z) : bool :=
-  if negb (forallb sane_bits fixed) then true else
-  let wq := weighQ (map (fun b => f64_to_Q (f64_of_bits b)) fixed) in
+Definition q_counts (wq : list Q) (counts : list Z) : bool :=
   forallb (fun p =>
              let '(w, n) := p in
              let nq := slot_countQ w in
@@ -174,16 +183,38 @@ Definition edge_weight (b : Z) : bool :=
   let x := f64_of_bits b in
   negb (f64_finite x) ||
   (let q := f64_to_Q x in
-   negb (Qle_bool q 0) && negb (Qle_bool (1 # 10^300) q && Qle_bool q (inject_Z (10^300)))).
+   negb (Qle_bool q 0) && negb (Qle_bool (1 # p300) q && Qle_bool q (inject_Z (Zpos p300)))).
 Definition edge_input (cmds : list cmd) : bool := existsb edge_weight (flat_map cmd_weights cmds).
 
 Definition first_n : nat := 48.
+
+(** the targets the fill places first (ascending slot count), as long as they need at
+    most [budget] placements in total: their slots are final once placed (the fill never
+    overwrites), so the model's ring after this prefix must agree with the
+    implementation's ring wherever the prefix ring is occupied *)
+Fixpoint order_prefix (budget : Z) (sorted : list (nat * Z)) : list (nat * Z) :=
+  match sorted with
+  | [] => []
+  | (i, n) :: rest =>
+      if (n <=? 0)%Z then (i, n) :: order_prefix budget rest
+      else if (n <=? budget)%Z then (i, n) :: order_prefix (budget - n) rest
+      else []
+  end.
+Fixpoint agrees_where_set (partial : ring) (impl : list N) : bool :=
+  match partial, impl with
+  | [], [] => true
+  | None :: p', _ :: i' => agrees_where_set p' i'
+  | Some t :: p', b :: i' => (N.of_nat t =? b)%N && agrees_where_set p' i'
+  | _, _ => false
+  end.
+Definition prefix_budget : Z := 50.
 
 Definition check_case (c : case) : N :=
   match c with
   | CRoute cmds full impl =>
       let edge := edge_input cmds in
-      match run_cmds cmds [] with
+      let strict := edge || match impl with Ok _ => false | _ => true end in
+      match run_cmds strict cmds [] with
       | Panic | Err _ =>
           (* the model predicts a crash while the table is built *)
           let same := match impl with Panic => true | _ => false end in
@@ -203,16 +234,27 @@ Definition check_case (c : case) : N :=
                   && list_eqb bits_eqb (o_weights o) (map f64_bits ws) in
               let same_counts :=
                   if dyn_only then list_eqb N.eqb (o_ring o) (map N.of_nat (seq 0 n))
-                  else list_eqb Z.eqb (map Z.of_N (occ_bytes n (o_ring o))) counts
-                       && (Z.of_nat (length (o_ring o)) =? used_slots counts)%Z
-                       && valid_order (o_order o) counts in
+                  else
+                    (* a target with a count <= 0 is skipped by the fill: it occupies nothing, and
+                       its position among the other skipped ones in the sort order is immaterial *)
+                    let placed := map (Z.max 0) counts in
+                    list_eqb Z.eqb (map Z.of_N (occ_bytes n (o_ring o))) placed
+                    && (Z.of_nat (length (o_ring o)) =? used_slots counts)%Z
+                    && valid_order (o_order o) placed in
+              let sorted := map (fun i => (i, nth i counts 0%Z)) (o_order o) in
               let same_ring :=
-                  if full && negb dyn_only then
-                    match ring_of_counts (map (fun i => (i, nth i counts 0%Z)) (o_order o)) counts with
+                  if dyn_only then true
+                  else if full then
+                    match ring_of_counts_scan sorted counts with
                     | Ok r => list_eqb N.eqb (map byte_of_slot r) (o_ring o)
                     | _ => false
                     end
-                  else true in
+                  else
+                    let used := used_slots counts in
+                    match (do r0 <- make_ring used; fill_scan (order_prefix prefix_budget sorted) (Z.to_nat used) r0) with
+                    | Ok r => agrees_where_set r (o_ring o)
+                    | _ => false
+                    end in
               let k := match o_first o with Ok ps => length ps | _ => first_n end in
               let same_first :=
                   let fix go (k : nat) (total : N) : outcome (list N) :=
@@ -227,7 +269,10 @@ Definition check_case (c : case) : N :=
                                       (match lookup_rnd n iring (fst p) with
                                        | Ok t => Ok (byte_of_slot t) | Err e => Err e | Panic => Panic end))
                           (o_rnd o) in
-              let same_q := q_bridge (o_fixed o) (o_weights o) [] && (dyn_only || q_counts (o_fixed o) counts) in
+              let same_q := match q_weights (o_fixed o) with
+                            | Some wq => q_bridge wq (o_weights o) && (dyn_only || q_counts wq counts)
+                            | None => true
+                            end in
               let same := same_weights && same_counts && same_ring && same_first && same_rnd && same_q in
               let spec := spec_obs n o in
               let region := if edge then Some 2%N else None in
